@@ -12,7 +12,23 @@ from core.prng import Rng
 
 NONE_CODE = 1000003          # how a `None` OUTPUT of the wrapped filter is written in the Lean model
 SWALLOWED = ("AssertionError", "EOFError", "BrokenPipeError")
-PLAIN_ERRS = ("ValueError", "TypeError", "KeyError", "RuntimeError", "C08Error", "ZeroDivisionError")
+PLAIN_ERRS = ("ValueError", "TypeError", "KeyError", "RuntimeError", "C08Error", "ZeroDivisionError",
+              "StopIteration", "StopIteration", "OSError", "FileNotFoundError", "LookupError", "C08SubError")
+# a StopIteration raised by the wrapped filter reaches the caller as RuntimeError('generator raised StopIteration')
+# (PEP 479: Foreach.filter is a generator), in-process and multi-process; the message carries no item id
+
+
+def stop_iteration_surfaced(oc):
+    return oc.get("item") is None and oc.get("type") in ("RuntimeError", "StopIteration") and (
+        "StopIteration" in (oc.get("msg") or "") or oc.get("type") == "StopIteration")
+
+
+def err_matches(case, model_err, oc):
+    """(A): the error the model says is raised (item id) against what the caller got"""
+    it = case["items"][model_err - case.get("base", 0)]
+    if it.get("err") == "StopIteration":
+        return stop_iteration_surfaced(oc)
+    return oc.get("item") == model_err
 
 
 # ------------------------------------------------------------------ helpers on cases
@@ -303,6 +319,11 @@ def judge(case, run):
               and case["items"][oc["item"] - base]["err"] == "RuntimeError"):
             fails.append(F("B", "CobaMultiprocessor turned the filter's RuntimeError(%s) into CobaExit (a BaseException): the caller does not get "
                            "that error (%s)" % (oc["msg"], desc), "wrapper-runtimeerror-becomes-cobaexit"))
+        elif "StopIteration" in types and stop_iteration_surfaced(oc):
+            pass        # exactly "the call raises": PEP 479 turns it into a RuntimeError without the item's identity
+        elif case.get("wrap") and "StopIteration" in types and oc.get("type") == "CobaExit" and "StopIteration" in (oc.get("msg") or ""):
+            fails.append(F("B", "CobaMultiprocessor turned the RuntimeError (from the filter's StopIteration) into CobaExit (a BaseException) (%s)" % desc,
+                           "wrapper-runtimeerror-becomes-cobaexit"))
         elif oc.get("item") is None or oc["item"] - base not in rs or oc.get("type") != case["items"][oc["item"] - base]["err"]:
             fails.append(F("B", "the call raised %s(%s), which is not one of the filter's errors (%s)" % (oc["type"], oc["msg"], desc), "wrong-error"))
     # maxtasksperchild
@@ -336,7 +357,7 @@ def correspond(case, run, driver):
         else:
             exp_outs, exp_kind = m_outs, ("raised" if m_err is not None else "ok")
         got = [enc(o) for o in run["outs"]]
-        if got != exp_outs or oc["kind"] != exp_kind or (exp_kind == "raised" and oc.get("item") != m_err):
+        if got != exp_outs or oc["kind"] != exp_kind or (exp_kind == "raised" and not err_matches(case, m_err, oc)):
             fails.append(F("A", "in-process path: implementation %s %s, model %s %s err=%s" % (got, oc, exp_outs, exp_kind, m_err), "A:inproc"))
         return fails, ans
     if run["trace"] is None:
@@ -359,7 +380,7 @@ def correspond(case, run, driver):
     got = [enc(o) for o in run["outs"]]
     if not ans["done"]:
         fails.append(F("A", "the call finished but the model is not in its final phase: %s" % json.dumps(ans["state"]), "A:not-done"))
-    elif mo["kind"] != oc["kind"] or mo["outs"] != got or (mo["kind"] == "raised" and mo["err"] != oc.get("item")):
+    elif mo["kind"] != oc["kind"] or mo["outs"] != got or (mo["kind"] == "raised" and not err_matches(case, mo["err"], oc)):
         fails.append(F("A", "outcome differs: implementation %s %s, model %s" % (got, oc, json.dumps(mo)), "A:outcome"))
     if not ans["mu_decreasing"]:
         fails.append(F("C", "the termination measure did not decrease on some step of an accepted trace", "C:variant"))
@@ -544,7 +565,7 @@ class C08(Property):
         r = rng.below(100)
         if r < 60:
             for i in rng.sample(list(range(6)), rng.choice([1, 1, 1, 2, n])):
-                items[i]["err"] = rng.choice(list(PLAIN_ERRS[:5]))
+                items[i]["err"] = rng.choice(list(PLAIN_ERRS[:5]) + ["StopIteration", "OSError"])
                 if not items[i]["gen"]:
                     items[i]["outs"] = []
         elif r < 90:
@@ -573,7 +594,7 @@ class C08(Property):
             items = [{"outs": [rng.randint(0, 5)] if rng.chance(0.85) else [], "err": None, "gen": True} for _ in range(cnt)]
             h = {"items": items, "abandon": None}
             if kk == "raise":
-                self.add_errors(rng, items, list(PLAIN_ERRS[:5]))
+                self.add_errors(rng, items, list(PLAIN_ERRS[:5]) + ["StopIteration", "C08SubError"])
             elif kk == "abandon":
                 h["abandon"] = rng.randint(1, max(1, sum(len(it["outs"]) for it in items)))
             hist.append(h)
@@ -698,6 +719,16 @@ class C08(Property):
                    "history": [{"items": bad3, "abandon": None}, {"items": fine4, "abandon": None}]})
         cs.append({"mode": "real", "n": 1, "m": 5, "abandon": None,
                    "items": [{"outs": [i % 5], "err": ("ValueError" if i == 3 else None), "gen": True} for i in range(40)]})
+        # StopIteration from a plain (non-generator) and from a generator filter: the call must raise (in-process and multi-process)
+        for n, m in ((1, 0), (2, 0), (1, 2), (3, 1)):
+            for g in (False, True):
+                items = [{"outs": ([] if (i == 2 and not g) else [i]), "err": ("StopIteration" if i == 2 else None), "gen": g} for i in range(6)]
+                cs.append({"mode": "sched", "n": n, "m": m, "items": items, "abandon": None, "sched": P("uniform")})
+        cs.append({"mode": "real", "n": 2, "m": 0, "abandon": None,
+                   "items": [{"outs": ([] if i == 2 else [i]), "err": ("StopIteration" if i == 2 else None), "gen": False} for i in range(5)]})
+        # a slow item keeps the bounded in_queue full for > 5 s: nothing may be given up on meanwhile
+        cs.append({"mode": "real", "n": 1, "m": 5, "abandon": None,
+                   "items": [{"outs": [i], "err": None, "gen": False, "sleep": (6.5 if i == 0 else 0)} for i in range(8)]})
         # real processes
         cs.append({"mode": "real", "n": 2, "m": 1, "items": [one(i) for i in range(3)], "abandon": None})
         cs.append({"mode": "real", "n": 2, "m": 0, "items": [{"outs": [i, i], "err": ("C08Error" if i == 1 else None), "gen": True} for i in range(3)], "abandon": None})
@@ -749,6 +780,8 @@ class C08(Property):
             tags.append("shape:multiple-of-m")
         if has_none(case):
             tags.append("probe:none-output")
+        for i in rs:
+            tags.append("err:%s:%s" % (case["items"][i]["err"], "gen" if case["items"][i].get("gen", True) else "plain"))
         if any(case["items"][i]["err"] in SWALLOWED for i in rs):
             tags.append("probe:swallowed-error-type")
         if ni > 2 * case["n"] + 4 and (rs and rs[0] <= 5 or (case.get("abandon") or 99) <= 3):
